@@ -1,8 +1,10 @@
 (* Debug.v -- lib.rs: impl fmt::Debug for Document (the iterative printer that replaced the
    recursive one, commit 413c2d0).  The formatting machinery is not modelled; what is modelled is
    the traversal: the explicit stack of Children iterators and the number of lines written
-   (every writeln! of the source is one line; {:?} of a str escapes line breaks, so a node
-   header, an attribute or a namespace is always one line). *)
+   (every writeln! of the source is one line; {:?} of a str escapes line breaks.  One exception, found by
+   the model audit: Debug of ExpandedName writes a namespace URI with {} -- a URI containing a raw line break,
+   possible through a character reference, adds line breaks that are not writeln! calls.  The count below is
+   the number of writeln! calls; the harness subtracts those raw line breaks before comparing). *)
 From RX.Model Require Import Base Stream Tokenizer Doc Builder Api.
 
 Section WithDoc.
